@@ -136,6 +136,10 @@ def step (w : World) (line : String) : World × String :=
     match parseIds ids, parseLevel lv, parseLevel cl with
     | some ids, some lv, some cl => sendResult w (w.macroSend ids ⟨lv, cl⟩)
     | _, _, _ => (w, "bad-op")
+  | ["macroname", name, lv, cl] =>
+    match parseLevel lv, parseLevel cl with
+    | some lv, some cl => sendResult w (w.macroSendName name ⟨lv, cl⟩)
+    | _, _ => (w, "bad-op")
   | ["precheck", ids, lv] =>
     match parseIds ids, parseLevel lv with
     | some ids, some lv => (w, retLine (w.discardById ids lv))
